@@ -67,11 +67,33 @@ def held_by_cycle_prog(rng):
     return src + make + "function main() -> void {\n  " + "\n  ".join(main) + "\n}\n"
 
 
+def shared_with_live_prog(rng):
+    """a garbage cycle of plain objects that also holds an object a live variable still holds - with a destructor, or owning a
+    qubit: whether that object is later released by its variable (destructor runs, qubit reset and reused) must not depend on
+    whether a collection unlinked the cycle first"""
+    qubit = rng.random() < 0.5
+    inner = ("class D { public int id; @tracked public qubit q; public constructor(int id) -> D { this.id = id; return this; } }\n" if qubit else
+             "class D { public int id; public constructor(int id) -> D { this.id = id; return this; } public destructor() -> D { echo(\"~D \" + this.id); } }\n")
+    k = rng.randint(2, 3)
+    src = (inner + "class A { public A other; public D d; public constructor() -> A { this.other = null; this.d = null; return this; } }\n"
+           "class Junk { public constructor() -> Junk = default; }\n"
+           "function mk(D d) -> void { %s %s a%d.d = d; }\n" % (" ".join("A a%d = new A();" % i for i in range(k)),
+                                                               " ".join("a%d.other = a%d;" % (i, (i + 1) % k) for i in range(k)), rng.randrange(k)) +
+           "function work(int id, int junk) -> void { D d = new D(id); mk(d); %sfor (int i = 0; i < junk; i = i + 1) { Junk j = new Junk(); } echo(\"work \" + id + \" done\"); }\n"
+           % ("x(d.q); measure d.q; " if qubit and rng.random() < 0.6 else ""))
+    calls = " ".join("work(%d, %d);" % (i + 1, rng.choice([0, 0, 17, 40])) for i in range(rng.randint(2, 3)))
+    tail = "qubit fresh; h(fresh); " if qubit else ""
+    return src + "function main() -> void { %s %secho(\"end of main\"); }\n" % (calls, tail)
+
+
 def qubit_cycle_prog(rng):
     """objects that own qubits (directly or through a base class), tied into garbage cycles; allocation bursts before or
     after a fresh qubit is declared.  The emitted circuit, warnings, qubit numbering and flags must not depend on
     when the collector runs."""
-    if rng.random() < 0.4:
+    r0 = rng.random()
+    if r0 < 0.25:
+        return shared_with_live_prog(rng)
+    if r0 < 0.55:
         return held_by_cycle_prog(rng)
     inherited = rng.random() < 0.7
     k = rng.randint(2, 4)
